@@ -96,7 +96,7 @@ class Scheduler:
         return self.results
 
 
-def make_race(prog, max_preempt, break_lock=False, delete_latest=False):
+def make_race(prog, max_preempt, break_lock=False, delete_latest=False, empty_archive=False):
     """delete_latest: the archive holds two versions and the collector deletes the newer one (the backup's basis) while the backup runs."""
     delete_bands = A.fn_by(prog, 'Archive', None, 'delete_bands')
 
@@ -109,10 +109,12 @@ def make_race(prog, max_preempt, break_lock=False, delete_latest=False):
             sg = ex.fresh_int('size_g', 1, 1 << 16)
             ha = A.put_block(ex, st, Data([(1, 0, sa)]))
             hg = A.put_block(ex, st, Data([(7, 0, sg)]))          # garbage: referenced by no version
-            A.put_head(ex, st, 0)
-            A.put_hunk(ex, st, 0, 0, [A.mk_entry(ex, '/', 'Dir', 1, mode=0o755),
-                                       A.mk_entry(ex, '/a', 'File', 10, addrs=[A.mk_addr(ex, ha, 0, sa)], mode=0o644)])
-            A.put_tail(ex, st, 0, 1)
+            if not empty_archive:
+                # (empty_archive: no version at all, only blocks left behind - the collector remembers "no band" as its baseline)
+                A.put_head(ex, st, 0)
+                A.put_hunk(ex, st, 0, 0, [A.mk_entry(ex, '/', 'Dir', 1, mode=0o755),
+                                           A.mk_entry(ex, '/a', 'File', 10, addrs=[A.mk_addr(ex, ha, 0, sa)], mode=0o644)])
+                A.put_tail(ex, st, 0, 1)
             files = [B.SrcFile('/', 'Dir', mtime=B.TimeV(1, 0), mode=0o755),
                      B.SrcFile('/a', 'File', cls=1, size=sa, mtime=B.TimeV(10, 0), mode=0o644)]
             ids = VecV([])
@@ -199,6 +201,12 @@ def classify(trace, lost=None):
     if None in (lock_check, lock_write, band_create, gc_remove, gc_check):
         return 'race:lost-block:unclassified'
     if lock_check < lock_write and gc_check < band_create and band_create < gc_remove:
+        # the recorded window: the re-check is the last thing the collector does before it starts deleting; a re-check that is
+        # followed by more reading (listing, measuring) leaves a wider window and is a different defect
+        first_mutation = idx(lambda t: t[0] == 'gc' and t[1].startswith('remove'))
+        between = [t for t in trace[gc_check + 1:first_mutation] if t[0] == 'gc' and not t[1].startswith('remove')] if first_mutation is not None else []
+        if between:
+            return 'race:lost-block:gc-rechecks-too-early-and-keeps-reading-before-it-deletes'
         return 'race:lost-block:backup-dedups-against-block-gc-then-deletes'
     if gc_check > band_create:
         return 'race:lost-block:gc-deletes-although-its-recheck-ran-after-the-band-was-created'
